@@ -46,11 +46,27 @@ def reshape (fuel : Nat) (t : PT) (s : List Nat) (next : Nat) : Outcome :=
       let paxes := pax.map (fun e => match e with | .phys v n => (v, n) | _ => (0, e.numel))
       .ok (Bn.normalize { physical := t.physical, paxes := paxes, vaxes := vnew.map (clone st.subst FUEL), default := t.default })
 
+/-! ### the fuel side condition of the theorem `C06e.reshape_dense`, decidable per job -/
+
+/-- no fuel was exhausted in `reshape fuel t s next`: no identity is bound twice by the unification, every prime factor of an
+old physical axis is an unbound physical axis, no bound axis remains in the clones of the fresh axes -/
+def resolved (fuel : Nat) (t : PT) (s : List Nat) (next : Nat) : Bool :=
+  let vnew : List Axis := s.zipIdx.map (fun (n, i) => if n == 1 then unitAxis else Axis.phys (next + i) n)
+  match unify fuel (productAxis vnew) (productAxis t.vaxes) ⟨[], next + s.length⟩ with
+  | (false, _) => true
+  | (true, st) =>
+    nodupNat (st.subst.map (·.1)) &&
+    t.paxes.all (fun k => (primeFactors st.subst FUEL (.phys k.1 k.2)).all (fun e =>
+      match e with
+      | .phys v _ => (bound st.subst v).isNone
+      | _ => false)) &&
+    vnew.all (fun a => (clone st.subst FUEL a).fv.all (fun q => (bound st.subst q.1).isNone))
+
 def handle : List String → Option (Except String String)
   | "C06.reshape" :: rest => some do
       let (t, s, next) ← Tok.run (do let t ← parsePT; let s ← Tok.list Tok.nat; let n ← Tok.nat; pure (t, s, n)) rest
       match reshape FUEL t s next with
-      | .ok r => pure ("ok " ++ Bn.showPT r ++ " " ++ showBool r.wf)
+      | .ok r => pure ("ok " ++ Bn.showPT r ++ " " ++ showBool r.wf ++ " " ++ showBool (resolved FUEL t s next))
       | .runtimeError => pure "RuntimeError"
       | .assertion => pure "AssertionError"
   | _ => none
